@@ -35,6 +35,8 @@ pub enum CorruptSpec {
     AddEntry(u8),
     /// the pool stream gains this many empty entries
     PoolGrow(u32),
+    /// a byte of the string data gets its high bit set (selector)
+    DataHighBit(u32),
 }
 
 impl CorruptSpec {
@@ -54,6 +56,7 @@ impl CorruptSpec {
             CorruptSpec::RootClsid => "corrupt_root_clsid",
             CorruptSpec::AddEntry(..) => "corrupt_odd_entry_name",
             CorruptSpec::PoolGrow(..) => "corrupt_pool_grown",
+            CorruptSpec::DataHighBit(..) => "corrupt_string_data_high_bit",
         }
     }
 
@@ -68,6 +71,7 @@ impl CorruptSpec {
                 | CorruptSpec::RootClsid
                 | CorruptSpec::AddEntry(..)
                 | CorruptSpec::PoolGrow(..)
+                | CorruptSpec::DataHighBit(..)
         )
     }
 
@@ -167,6 +171,17 @@ impl CorruptSpec {
                 }
                 streams.push(RawStream { name, data: vec![7u8; (rng.below(40) as usize) * 3] });
             }
+            CorruptSpec::DataHighBit(sel) => {
+                let i = match find(&streams, &data_name) {
+                    Some(i) => i,
+                    None => return false,
+                };
+                if streams[i].data.is_empty() {
+                    return false;
+                }
+                let at = *sel as usize % streams[i].data.len();
+                streams[i].data[at] |= 0x80;
+            }
             CorruptSpec::PoolGrow(n) => {
                 let i = match find(&streams, &pool_name) {
                     Some(i) => i,
@@ -235,10 +250,17 @@ impl CorruptSpec {
                 if d.len() < 4 {
                     return false;
                 }
-                match kind % 3 {
+                match kind % 4 {
                     0 => d[0..4].copy_from_slice(&12345u32.to_le_bytes()),
                     1 => d[3] ^= 0x80,
-                    _ => d.truncate(2),
+                    2 => d.truncate(2),
+                    _ => {
+                        // another *valid* code page than the text was written in
+                        let id = [20127u32, 932, 936, 949, 950, 1252, 28591, 65001, 10000, 0][rng.usize_below(10)];
+                        let keep = d[3] & 0x80;
+                        d[0..4].copy_from_slice(&id.to_le_bytes());
+                        d[3] |= keep;
+                    }
                 }
             }
             CorruptSpec::PoolEntry(sel, kind) => {
@@ -290,7 +312,21 @@ impl CorruptSpec {
                         d[at..at + 4].copy_from_slice(&v.to_le_bytes());
                     }
                 };
-                match kind % 16 {
+                match kind % 18 {
+                    16 => {
+                        // high bit in the first byte of the chosen value's payload (a string byte, usually)
+                        let at = voff.saturating_add(8);
+                        if at < d.len() {
+                            d[at] |= 0x80;
+                        }
+                    }
+                    17 => {
+                        // the code-page property names another valid page
+                        let id = [20127u16, 932, 1252, 65001, 936][*arg as usize % 5];
+                        if cp_voff.checked_add(6).map(|e| e <= d.len()).unwrap_or(false) {
+                            d[cp_voff + 4..cp_voff + 6].copy_from_slice(&id.to_le_bytes());
+                        }
+                    }
                     0 => d[0] = 0,
                     1 => d[2] = 7,
                     2 => d[6] = 9,
